@@ -48,7 +48,7 @@ import (
 var (
 	dataAttribute             = regexp.MustCompile("^data-.+")
 	dataAttributeXMLPrefix    = regexp.MustCompile("^xml.+")
-	dataAttributeInvalidChars = regexp.MustCompile("[A-Z;]+")
+	dataAttributeInvalidChars = regexp.MustCompile("[^a-z0-9._\\-\\x{80}-\\x{10FFFF}]")
 	dataURIbase64Prefix       = regexp.MustCompile(`^data:[^,]*;base64,`)
 )
 
@@ -1247,7 +1247,8 @@ func isDataAttribute(val string) bool {
 	if dataAttributeXMLPrefix.MatchString(rest[1]) {
 		return false
 	}
-	// no uppercase or semi-colons allowed.
+	// the name has to be XML-compatible and without upper case: no
+	// semi-colons, quotes, angle brackets, colons, control characters.
 	if dataAttributeInvalidChars.MatchString(rest[1]) {
 		return false
 	}
